@@ -19,7 +19,7 @@ CONSTANTS
   MaxInflight = 3
   KnownC27 = {}
   KnownC28 = {}
-  KnownC29 = {"initiator/connected-dup/propose_handshake-assert", "initiator/connected/propose_handshake-assert"}
+  KnownC29 = {"initiator/connected-dup/propose_handshake-assert/lifecycle-violating", "initiator/connected/propose_handshake-assert/lifecycle-violating"}
 INIT MInit
 NEXT MNext
 VIEW View
